@@ -40,6 +40,8 @@ enum OpKind {
 #[derive(Debug, Clone, PartialEq, Eq, Hash)]
 enum Fault {
 	SendError,
+	/// the transport fails exactly when the unsubscribe request of a dropped stream is written
+	SendErrorOnUnsubscribe,
 	RecvError,
 	PeerClose,
 	NotJson,
@@ -91,7 +93,7 @@ struct Out {
 	outcomes: usize,
 	causes_seen: Vec<String>,
 	conn_ended: bool,
-	points: Vec<&'static str>,
+	points: Vec<String>,
 }
 
 async fn run_op(c: Arc<SimClient>, kind: OpKind, tag: String) -> OpOut {
@@ -121,7 +123,6 @@ const PLACEHOLDER: &str = "Error reason could not be found";
 
 async fn run_spec(spec: &Spec) -> Out {
 	let mut out = Out::default();
-	let mut r = Rng::new(spec.seed);
 	// hooks: seeded real delays and an optional gate
 	let gate = Arc::new(Notify::new());
 	let gate_armed = Arc::new(AtomicBool::new(spec.gate_frontend_closed));
@@ -160,7 +161,7 @@ async fn run_spec(spec: &Spec) -> Out {
 
 	// an open stream
 	let mut stream_task = None;
-	if spec.open_stream {
+	if spec.open_stream || spec.fault == Fault::SendErrorOnUnsubscribe {
 		let c = client.clone();
 		let t = tokio::spawn(async move { c.subscribe::<Value, _>("sub", rpc_params!["stream"], "unsub").await });
 		if let Ok(Some((_, WireMsg::Single(q)))) = tokio::time::timeout(Duration::from_secs(5), srv.next_msg()).await {
@@ -236,6 +237,17 @@ async fn run_spec(spec: &Spec) -> Out {
 			*srv.ctl.fail_from.lock().unwrap() = Some((n, format!("send failed {nonce}")));
 			// something must be sent for the fault to strike: one more call (it is outstanding when the fault hits)
 			tasks.push(("trigger".into(), OpKind::Call, false, tokio::spawn(run_op(client.clone(), OpKind::Call, "trigger".into()))));
+			Some(nonce.clone())
+		}
+		Fault::SendErrorOnUnsubscribe => {
+			let n = srv.ctl.sends.load(Ordering::SeqCst);
+			// only this one write fails; the receive side stays healthy
+			*srv.ctl.fail_once_at.lock().unwrap() = Some((n, format!("send failed {nonce}")));
+			// the consumer drops its stream: the client writes an unsubscribe request, and that write fails
+			if let Some(t) = stream_task.take() {
+				t.abort();
+				let _ = t.await;
+			}
 			Some(nonce.clone())
 		}
 		Fault::RecvError => {
@@ -432,7 +444,7 @@ async fn run_spec(spec: &Spec) -> Out {
 			t.abort();
 		}
 	}
-	out.points = points.lock().unwrap().clone();
+	out.points = points.lock().unwrap().iter().map(|p| p.to_string()).collect();
 	clear_thread_hook();
 	drop(client);
 	out
@@ -517,7 +529,8 @@ fn gen_spec(seed: u64, directed: Option<(Fault, bool, bool)>) -> Spec {
 	let (fault, slow_close, gate) = match directed {
 		Some(d) => d,
 		None => {
-			let f = match r.below(12) {
+			let f = match r.below(13) {
+				12 => Fault::SendErrorOnUnsubscribe,
 				0 | 1 => Fault::SendError,
 				2 => Fault::RecvError,
 				3 => Fault::PeerClose,
@@ -568,7 +581,7 @@ fn all_specs(seed: u64, n_random: u64) -> Vec<Spec> {
 	let mut v = Vec::new();
 	// fault enumeration: every fault kind x schedule variant x several histories
 	let mut faults: Vec<Fault> =
-		vec![Fault::SendError, Fault::RecvError, Fault::PeerClose, Fault::NotJson, Fault::JsonNoMessage, Fault::UnknownIdResponse, Fault::EmptyArray];
+		vec![Fault::SendError, Fault::SendErrorOnUnsubscribe, Fault::RecvError, Fault::PeerClose, Fault::NotJson, Fault::JsonNoMessage, Fault::UnknownIdResponse, Fault::EmptyArray];
 	for ids in HOSTILE_IDS {
 		faults.push(Fault::BatchReplyIds(ids));
 	}
@@ -587,8 +600,36 @@ fn all_specs(seed: u64, n_random: u64) -> Vec<Spec> {
 	v
 }
 
+/// Child process: runs the cases `from..to` of the family one after the other and prints one line per case, so that the
+/// parent can tell which case killed the process if the library aborts it (allocation failure, double panic).
+fn shard_main(ctx: &Ctx) {
+	use std::io::Write;
+	let n: u64 = ctx.arg_value("--n").and_then(|s| s.parse().ok()).unwrap_or(0);
+	let from: usize = ctx.arg_value("--from").and_then(|s| s.parse().ok()).unwrap_or(0);
+	let to: usize = ctx.arg_value("--to").and_then(|s| s.parse().ok()).unwrap_or(0);
+	install_panic_capture(true);
+	let specs = all_specs(ctx.seed, n);
+	let out = std::io::stdout();
+	for idx in from..to.min(specs.len()) {
+		{
+			let mut o = out.lock();
+			let _ = writeln!(o, "BEGIN {idx}");
+			let _ = o.flush();
+		}
+		let o = block_on_real(run_spec(&specs[idx]));
+		let panics: Vec<Value> = take_panics().into_iter().filter(|p| p.in_library).map(|p| json!({"location": p.location, "message": p.message, "backtrace": p.backtrace_head})).collect();
+		let line = json!({"idx": idx, "violations": o.violations, "history": o.history, "outcomes": o.outcomes, "causes": o.causes_seen, "conn_ended": o.conn_ended, "points": o.points, "panics": panics});
+		let mut w = out.lock();
+		let _ = writeln!(w, "END {line}");
+		let _ = w.flush();
+	}
+}
+
 fn main() {
 	let ctx = Ctx::from_env("C09", "fault_enumeration");
+	if ctx.sub.as_deref() == Some("shard") {
+		return shard_main(&ctx);
+	}
 	if let Some(mode) = ctx.sub.clone() {
 		let n: u64 = ctx.arg_value("--n").and_then(|s| s.parse().ok()).unwrap_or(40);
 		let specs = all_specs(ctx.seed, n);
@@ -635,10 +676,89 @@ fn main() {
 	} else {
 		all_specs(ctx.seed, ctx.tier.pick(1500, 60_000))
 	};
-	let results = run_parallel(specs, |_, spec| {
-		let o = block_on_real(run_spec(&spec));
-		(spec, o)
-	});
+	// The cases run in child processes (one per worker, sequential inside): hostile server bytes may make the library
+	// abort the whole process (e.g. an allocation of 2^64 bytes), which no catch_unwind can contain.
+	let n_random = ctx.tier.pick(1500u64, 60_000);
+	let results: Vec<(Spec, Out)> = if replay {
+		specs.into_iter().map(|spec| { let o = block_on_real(run_spec(&spec)); (spec, o) }).collect()
+	} else {
+		let exe = std::env::current_exe().expect("exe");
+		let total = specs.len();
+		let workers = jobs();
+		let per = total.div_ceil(workers);
+		let seed = ctx.seed;
+		let shards: Vec<(usize, usize)> = (0..workers).map(|w| (w * per, ((w + 1) * per).min(total))).filter(|(a, b)| a < b).collect();
+		let outputs = run_parallel(shards, |_, (from, to)| {
+			let mut done: Vec<(usize, Value)> = Vec::new();
+			let mut aborted: Vec<(usize, String)> = Vec::new();
+			let mut next = from;
+			// restart after an abort, skipping the culprit
+			while next < to {
+				let o = std::process::Command::new(&exe)
+					.args(["--sub", "shard", "--n", &n_random.to_string(), "--from", &next.to_string(), "--to", &to.to_string()])
+					.env("VERIF_SEED", seed.to_string())
+					.output();
+				let Ok(o) = o else { break };
+				let text = String::from_utf8_lossy(&o.stdout).into_owned();
+				let mut began: Option<usize> = None;
+				for l in text.lines() {
+					if let Some(i) = l.strip_prefix("BEGIN ") {
+						began = i.trim().parse().ok();
+					} else if let Some(j) = l.strip_prefix("END ") {
+						if let Ok(v) = serde_json::from_str::<Value>(j) {
+							let idx = v["idx"].as_u64().unwrap_or(0) as usize;
+							done.push((idx, v));
+							began = None;
+							next = idx + 1;
+						}
+					}
+				}
+				if o.status.success() {
+					break;
+				}
+				match began {
+					Some(i) => {
+						let err = String::from_utf8_lossy(&o.stderr);
+						let first = err.lines().find(|l| l.contains("memory allocation") || l.contains("panicked") || l.contains("abort") || l.contains("fatal")).unwrap_or("").to_string();
+						aborted.push((i, format!("the check process died ({:?}) while running this case: {first}", o.status)));
+						next = i + 1;
+					}
+					None => break,
+				}
+			}
+			(done, aborted)
+		});
+		let mut by_idx: Vec<Option<Out>> = (0..total).map(|_| None).collect();
+		for (done, aborted) in outputs {
+			for (idx, v) in done {
+				let mut o = Out::default();
+				o.violations = v["violations"].as_array().map(|a| a.iter().map(|p| (p[0].as_str().unwrap_or("").to_string(), p[1].as_str().unwrap_or("").to_string())).collect()).unwrap_or_default();
+				o.history = v["history"].as_array().map(|a| a.iter().map(|s| s.as_str().unwrap_or("").to_string()).collect()).unwrap_or_default();
+				o.outcomes = v["outcomes"].as_u64().unwrap_or(0) as usize;
+				o.causes_seen = v["causes"].as_array().map(|a| a.iter().map(|s| s.as_str().unwrap_or("").to_string()).collect()).unwrap_or_default();
+				o.conn_ended = v["conn_ended"].as_bool().unwrap_or(false);
+				o.points = v["points"].as_array().map(|a| a.iter().map(|s| s.as_str().unwrap_or("").to_string()).collect()).unwrap_or_default();
+				for p in v["panics"].as_array().cloned().unwrap_or_default() {
+					let loc = p["location"].as_str().unwrap_or("");
+					o.violations.push((format!("library-panic/{}", loc.rsplit('/').next().unwrap_or("").split(':').next().unwrap_or("")), format!("{} at {loc}", p["message"].as_str().unwrap_or(""))));
+				}
+				if idx < total {
+					by_idx[idx] = Some(o);
+				}
+			}
+			for (idx, why) in aborted {
+				let mut o = Out::default();
+				o.outcomes = 1;
+				o.violations.push((format!("process-aborted/{}", specs[idx].fault.class()), why));
+				by_idx[idx] = Some(o);
+			}
+		}
+		let missing = by_idx.iter().filter(|o| o.is_none()).count();
+		if missing > 0 {
+			ev.set("cases_without_result", json!(missing));
+		}
+		specs.into_iter().zip(by_idx).filter_map(|(s, o)| o.map(|o| (s, o))).collect()
+	};
 	for (spec, o) in results {
 		if replay {
 			println!("spec: {spec:?}");
